@@ -325,6 +325,11 @@ def _new(kind, seed, spec):
     return E.History(f'{kind}-{seed}', {'driver': 'est_gen.gen_case', 'args': {'kind': kind, 'seed': seed}, 'cls': spec['cls'],
                                         'rankings': {f: list(d['order']) for f, d in spec['features'].items() if d.get('order') is not None},
                                         'str_nan': spec['params'].get('str_nan'), 'str_default': spec['params'].get('str_default'),
+                                        # plain categorical features of classes that group rare categories into the default modality
+                                        'min_freq': list(spec['params'].get('min_freq') or []),
+                                        'plain_categ': [f for f, d in spec['features'].items() if d['kind'] == 'categ' and not d.get('chained') and not d.get('preset')]
+                                        if spec['cls'] in ('Discretizer', 'QualitativeDiscretizer', 'CategoricalDiscretizer', 'BinaryCarver', 'ContinuousCarver',
+                                                           'MulticlassCarver') else [],
                                         'spec_summary': {'cls': spec['cls'], 'n': len(spec['y']), 'features': {f: d['kind'] for f, d in spec['features'].items()},
                                                          'params': spec['params']}})
 
